@@ -1,7 +1,7 @@
 (* PipelineChainProofs.v — composition of the stages: the full statement of C16 for declared packages *)
 From Coq Require Import String Ascii List Arith NArith Bool Lia ZifyN ZifyNat ZifyBool Permutation.
 From J5V.lib Require Import Outcome Corr.
-From J5V.model Require Import Pipeline PipelineCorr.
+From J5V.model Require Import Pipeline PipelineCompile PipelineCorr.
 From J5V.gen Require SwaggerGen.
 From J5V.proofs Require Import PipelineProofs.
 Import ListNotations.
@@ -290,7 +290,7 @@ Definition decl_services (P : decl_package) : list decl_service :=
   map (fun s => {| ds_name := fst s; ds_methods := map df_decl (snd s) |}) (dp_services P).
 
 Definition declared_api (P : decl_package) : src_api :=
-  {| sa_services := map declared_service (decl_services P); sa_topics := [] |}.
+  {| sa_services := map declared_service (decl_services P); sa_topics := map declared_topic (dp_topics P) |}.
 
 Lemma in_all_methods (P : decl_package) s d : In s (dp_services P) -> In d (snd s) -> In d (all_methods P).
 Proof. intros Hs Hd. unfold all_methods. apply in_flat_map. exists s. split; assumption. Qed.
@@ -301,10 +301,12 @@ Proof.
   intros (Hwf & _). cbn [compile_image im_services].
   replace (map (fun s => compile_service to_snake {| ds_name := fst s; ds_methods := map df_decl (snd s) |}) (dp_services P))
     with (map (compile_service to_snake) (decl_services P)) by (unfold decl_services; rewrite map_map; reflexivity).
-  rewrite add_structure_declared; [reflexivity|].
-  unfold decl_services. apply Forall_forall. intros s Hs. apply in_map_iff in Hs as [s0 [<- Hs0]].
-  cbn [ds_methods]. apply Forall_forall. intros dm Hdm. apply in_map_iff in Hdm as [d [<- Hd]].
-  rewrite Forall_forall in Hwf. apply Hwf. eapply in_all_methods; eassumption.
+  rewrite (add_structure_app _ _ _ {| sa_services := map declared_service (decl_services P); sa_topics := [] |}).
+  - rewrite add_structure_topics. reflexivity.
+  - rewrite add_structure_declared; [reflexivity|].
+    unfold decl_services. apply Forall_forall. intros s Hs. apply in_map_iff in Hs as [s0 [<- Hs0]].
+    cbn [ds_methods]. apply Forall_forall. intros dm Hdm. apply in_map_iff in Hdm as [d [<- Hd]].
+    rewrite Forall_forall in Hwf. apply Hwf. eapply in_all_methods; eassumption.
 Qed.
 
 Lemma methods_declared P : valid_package to_snake P ->
